@@ -22,6 +22,20 @@ import (
 	"verif/harness/respcodec"
 )
 
+// readReply reads the next value that is not a push of the early publisher (payload "early")
+func readReply(c *cl, d time.Duration) (respcodec.Value, error) {
+	for {
+		v, err := readValue(c, d)
+		if err != nil {
+			return v, err
+		}
+		if v.Kind == '*' && len(v.Elems) == 3 && string(v.Elems[0].Str) == "message" && string(v.Elems[2].Str) == "early" {
+			continue
+		}
+		return v, nil
+	}
+}
+
 type anomaly struct {
 	Kind   string `json:"kind"`
 	Round  int    `json:"round"`
@@ -113,6 +127,10 @@ func main() {
 		go func() {
 			var wg sync.WaitGroup
 			start := make(chan struct{})
+			earlyDone := make(chan struct{})
+			if leaver == nil {
+				close(earlyDone)
+			}
 			errs := make(chan string, nsub+1)
 			for i := range subs {
 				wg.Add(1)
@@ -129,19 +147,51 @@ func main() {
 						return
 					}
 					// this server answers a multi-channel SUBSCRIBE with ONE array of (subscribe, channel, 1) triples
-					v, err := readValue(subs[i], 40*time.Second)
+					v, err := readReply(subs[i], 40*time.Second)
 					if err != nil || v.Kind != '*' || len(v.Elems) != 3*nch || string(v.Elems[0].Str) != "subscribe" {
 						errs <- fmt.Sprintf("subscriber %d: confirmation of SUBSCRIBE %v missing or malformed (%v, %d elements)", i, orders[i], err, len(v.Elems))
 						return
 					}
+					// keep reading while the early publisher is at work (the pipe is synchronous: a push nobody reads blocks PUBLISH)
+					for {
+						select {
+						case <-earlyDone:
+							return
+						default:
+						}
+						if m, err := readValue(subs[i], 2*time.Millisecond); err == nil {
+							if !(m.Kind == '*' && len(m.Elems) == 3 && string(m.Elems[2].Str) == "early") {
+								errs <- fmt.Sprintf("subscriber %d received an unexpected value while waiting: %q", i, m.Str)
+								return
+							}
+						}
+					}
 				}(i)
 			}
 			if leaver != nil {
-				wg.Add(1)
+				wg.Add(2)
 				go func() {
 					defer wg.Done()
 					<-start
 					leaver.c.Close()
+				}()
+				// ... and a publisher is publishing to those channels at that very moment (it meets the dead subscriber and the
+				// arriving ones); what it reports is not judged, what it leaves behind is
+				early := dial()
+				go func() {
+					defer wg.Done()
+					defer early.c.Close()
+					defer close(earlyDone)
+					<-start
+					for rep := 0; rep < 2; rep++ {
+						for _, c := range chs {
+							early.c.SetWriteDeadline(time.Now().Add(40 * time.Second))
+							early.c.Write(respcodec.EncodeCommand([][]byte{[]byte("PUBLISH"), []byte(c), []byte("early")}))
+							if _, err := readValue(early, 40*time.Second); err != nil {
+								return
+							}
+						}
+					}
 				}()
 			}
 			close(start)
@@ -166,7 +216,7 @@ func main() {
 				res := make(chan got, nsub)
 				for i := range subs {
 					go func(i int) {
-						m, err := readValue(subs[i], 40*time.Second)
+						m, err := readReply(subs[i], 40*time.Second)
 						res <- got{i, m, err}
 					}(i)
 				}
